@@ -155,3 +155,26 @@ Proof.
   intros (c1 & [<-|[]] & H1) (c2 & H2 & Hn2). apply filter_In in H2. destruct H2 as [H2 Hne].
   exists c2. repeat split; auto. apply negb_true_iff in Hne. apply String.eqb_neq. exact Hne.
 Qed.
+
+(* ---------- C17: comment items are inert ---------- *)
+Lemma transform_app cs l1 l2 :
+  transform cs (l1 ++ l2) = bind (transform cs l1) (fun cs' => transform cs' l2).
+Proof.
+  revert cs; induction l1 as [|it l1 IH]; intros cs; simpl; [reflexivity|].
+  destruct (add_item cs it) as [cs'|e]; simpl; [apply IH|reflexivity].
+Qed.
+
+Theorem comment_items_are_ignored l1 s l2 :
+  load_comps (l1 ++ IComment s :: l2) = load_comps (l1 ++ l2) /\ load (l1 ++ IComment s :: l2) = load (l1 ++ l2).
+Proof.
+  assert (H : transform [] (l1 ++ IComment s :: l2) = transform [] (l1 ++ l2)).
+  { rewrite !transform_app. destruct (transform [] l1); simpl; reflexivity. }
+  unfold load, load_comps. rewrite H. split; reflexivity.
+Qed.
+
+Theorem comment_text_is_irrelevant l1 s s' l2 :
+  load (l1 ++ IComment s :: l2) = load (l1 ++ IComment s' :: l2).
+Proof.
+  destruct (comment_items_are_ignored l1 s l2) as [_ ->].
+  destruct (comment_items_are_ignored l1 s' l2) as [_ ->]. reflexivity.
+Qed.
